@@ -429,8 +429,8 @@ func (s *SourceControl) Stop(dummy *string, reply *bool) error {
 func (s *SourceControl) handlePossibleStoppedSource() {
 	if s.isSourceActive && !s.ActiveSource.Running() {
 		s.status.Running = false
-		s.isSourceActive = false
 		verifPoint("sc.refreshed")
+		s.isSourceActive = false
 		s.clientUpdates <- ClientUpdate{"STATUS", s.status}
 		s.heartbeats <- Heartbeat{Running: false}
 
